@@ -73,8 +73,8 @@ def initial(kind, na, nb, pat):
 
 def alphabet(kind, na, nb, full):
     """Assignment symbols (attribute, tag) for a configuration; values are materialised by `value`."""
-    ops = [("occs", "none"), ("occs", "int"), ("occs", "frac"), ("occs", "nearint"), ("occs", "long"), ("occsa", "int"), ("occsa", "frac"), ("occsa", "long"),
-           ("occsa", "one"), ("occsb", "int"), ("occsb", "frac"), ("occsb", "long"), ("occsb", "one"),
+    ops = [("occs", "none"), ("occs", "int"), ("occs", "frac"), ("occs", "nearint"), ("occs", "long"), ("occsa", "int"), ("occsa", "frac"), ("occsa", "half"), ("occsa", "long"),
+           ("occsa", "one"), ("occsb", "int"), ("occsb", "frac"), ("occsb", "half"), ("occsb", "long"), ("occsb", "one"),
            ("occs_aminusb", "none"), ("occs_aminusb", "valid"), ("occs_aminusb", "long")]
     if full:
         ops += [("coeffs", "none"), ("coeffs", "valid"), ("coeffs", "long"), ("energies", "none"), ("energies", "valid"), ("energies", "long"),
@@ -120,6 +120,10 @@ def value(kind, na, nb, attr, tag, mo):
         if n >= 2:
             base[(n + 1) // 2 - 1] = 1.0
         return base + np.where(np.arange(n) % 2 == 0, 1e-9, -2e-13) * (base > 0) + 1e-9 * (base == 0) * (np.arange(n) % 3 == 0)
+    if tag == "half":
+        # the same half-integer pattern for either spin: alpha = beta = [1, .5, .5, 0, ...] makes every spin-summed
+        # occupation an integer although the orbitals are spin-unpolarised
+        return np.array([1.0, 0.5, 0.5, 0.0, 0.0, 0.0, 0.0])[:n] if n else np.zeros(0)
     if tag == "frac":
         scale = 2.0 if (attr == "occs" and kind == "restricted") else 1.0
         return np.linspace(0.95, 0.05, n) * scale if n else np.zeros(0)
